@@ -21,7 +21,7 @@ RULE = ("case = generated enum x one module per legal iterator mode in one probe
         "model and in-probe std::vec::IntoIter over the model-ordered list. non-trivial = a history with at least one "
         "front and one back operation on an enum with >= 2 variants; distinct by (repr, discriminants, order, modes)")
 
-PROFILE = S.profile(renames=0.05, dups=0.0, attrs=0.1, sizes=[("small", 84), ("medium", 10), ("large", 4), ("full8", 2)])
+PROFILE = S.profile(renames=0.05, dups=0.0, attrs=0.1, sizes=[("small", 80), ("medium", 10), ("large", 5), ("full8", 5)])
 
 
 def mode_variants(m):
@@ -42,7 +42,7 @@ def mode_variants(m):
 @st.composite
 def cases(draw, tier="quick"):
     spec = draw(S.enum_specs(PROFILE))
-    base = draw(S.configs(spec, forbid=("iter",), p_on=0.2, split=False))
+    base = draw(S.configs(spec, forbid=("iter",), p_on=0.2, split=False, p_sorted=0.15))
     m = M.RefEnum(spec)
     hists = draw(st.lists(S.histories(m.n), min_size=1, max_size=4))
     return {"spec": spec, "base": base, "hists": hists, "nrand": HISTS.get(tier, 20),
